@@ -68,7 +68,7 @@ class Program:  # pylint: disable=too-many-instance-attributes
                 v = int_value(l.args[0])
                 if v is not None:
                     consts.add(v)
-            elif l.op == "intcblock":
+            elif l.op in ("intcblock", "pushints"):
                 for a in l.args:
                     v = int_value(a)
                     if v is not None:
@@ -298,6 +298,12 @@ class Explorer:
             if v is None or v > MAXU:
                 raise Reject("bad int literal")
             stack.append(v)
+        elif op == "pushints":
+            for x in a:
+                v = int_value(x)
+                if v is None or v > MAXU:
+                    raise Reject("bad int literal")
+                stack.append(v)
         elif op == "intcblock":
             st.intc = tuple(int_value(x) for x in a)  # type: ignore
         elif op in ("intc", "intc_0", "intc_1", "intc_2", "intc_3"):
